@@ -54,10 +54,11 @@ const (
 )
 
 type c42Params struct {
-	name   string
-	n, w   int // messages, flow-control window
-	faults int // fault budget
-	ticks  int // tick budget during exploration
+	name     string
+	n, w     int  // messages, flow-control window
+	faults   int  // fault budget
+	ticks    int  // tick budget during exploration
+	onlyDrop bool // fault alphabet restricted to message loss
 	// sharding: the class of the FIRST fault of a history decides which shard explores it
 	shard, nshards int
 }
@@ -227,7 +228,7 @@ func (w *c42World) ops(explore bool) []c42Op {
 			if owns("drop", c42Kind(m.msg)) {
 				out = append(out, c42Op{label: "drop " + e.s, cost: 1, run: func() { w.faults++; w.net.c42Remove(m) }})
 			}
-			if owns("dup", c42Kind(m.msg)) {
+			if !w.p.onlyDrop && owns("dup", c42Kind(m.msg)) {
 				out = append(out, c42Op{label: "dup " + e.s, cost: 1, run: func() {
 					w.faults++
 					w.net.c42Add(&c42Msg{from: m.from, to: m.to, msg: m.msg})
@@ -241,7 +242,7 @@ func (w *c42World) ops(explore bool) []c42Op {
 		// after the receiver's timeout fired.
 		if len(pool) == 0 {
 			out = append(out, c42Op{label: "tick", run: func() { w.ticks++; time.Sleep(c42Interval) }})
-		} else if w.faults < w.p.faults && owns("delay", "") {
+		} else if w.faults < w.p.faults && !w.p.onlyDrop && owns("delay", "") {
 			out = append(out, c42Op{label: "tick(delaying the pool)", cost: 1, run: func() { w.ticks++; w.faults++; time.Sleep(c42Interval) }})
 		}
 	}
@@ -658,32 +659,53 @@ func c42Replay(p c42Params, exec func(hist []string, cont bool) c42Result, filte
 }
 
 func c42Scenarios() []c42Params {
-	n, w := 3, 2
-	f := vsched.Pick(1, 2)
-	tk := vsched.Pick(2, 3)
-	if s := os.Getenv("VERIF_C42_CFG"); s != "" { // development aid
-		fmt.Sscanf(s, "%d,%d,%d,%d", &n, &w, &f, &tk)
-	}
 	r := vsched.Rep()
 	sh, nsh := r.Shard, r.NShards
 	if r.ReplayScenario() != "" {
 		sh, nsh = 0, 1
 	}
-	return []c42Params{{name: fmt.Sprintf("p2p/N%d/W%d/F%d/T%d", n, w, f, tk), n: n, w: w, faults: f, ticks: tk, shard: sh, nshards: nsh}}
+	mk := func(n, w, f, tk int, onlyDrop bool) c42Params {
+		name := fmt.Sprintf("p2p/N%d/W%d/F%d/T%d", n, w, f, tk)
+		if onlyDrop {
+			name += "/drops-only"
+		}
+		return c42Params{name: name, n: n, w: w, faults: f, ticks: tk, onlyDrop: onlyDrop, shard: sh, nshards: nsh}
+	}
+	if s := os.Getenv("VERIF_C42_CFG"); s != "" { // development aid
+		var n, w, f, tk int
+		fmt.Sscanf(s, "%d,%d,%d,%d", &n, &w, &f, &tk)
+		return []c42Params{mk(n, w, f, tk, false)}
+	}
+	if !r.Thorough() {
+		return []c42Params{mk(3, 2, 1, 1, false)}
+	}
+	// ascending cost; the last one is the largest
+	return []c42Params{mk(3, 3, 1, 1, false), mk(3, 2, 2, 0, false), mk(3, 2, 1, 3, false), mk(3, 2, 2, 1, true)}
+}
+
+// c42Deadline gives scenario i of n an equal share of the wall budget that is left.
+func c42Deadline(start time.Time, i, n int) time.Time {
+	budget := 3600.0
+	if s := os.Getenv("VERIF_BUDGET_S"); s != "" {
+		fmt.Sscanf(s, "%g", &budget)
+	}
+	end := start.Add(time.Duration(budget * float64(time.Second)))
+	left := time.Until(end)
+	if left < 0 {
+		left = 0
+	}
+	return time.Now().Add(left / time.Duration(n-i))
 }
 
 func c42Test(t *testing.T, prop string) {
 	defer vsched.Finish(t)
+	start := time.Now()
 	r := vsched.Rep()
 	r.Assumption("controller-to-controller traffic is intercepted by wrapping the controllers' mailboxes after the real spawn transaction; the endpoints are harness actors following the documented RequestNext/Produced/Stored/StoredAck and Delivery/Confirmed contract; volatile (no durable queue), no chunking, no controller restart")
 	scs := c42Scenarios()
 	for i, p := range scs {
 		p := p
-		left := time.Duration(0)
-		_ = left
-		dl := time.Time{}
-		_ = i
-		c42Search(t, p, nil, 200, dl, func(h []string, cont bool) c42Result { return c42Exec(t, p, h, cont) },
+		c42Search(t, p, map[string]any{"drops_only": p.onlyDrop}, 200, c42Deadline(start, i, len(scs)), func(h []string, cont bool) c42Result { return c42Exec(t, p, h, cont) },
 			func(v vsched.Violation) bool { return strings.HasPrefix(v.Signature, prop+":") })
 	}
 }
